@@ -392,6 +392,10 @@ fn apply(st: &mut State, step: &Step, cell: &mut Option<u64>) -> Result<StepOut,
             let opname = ["check", "as_ref", "as_mut", "cast", "into"][op as usize];
             let what = format!("{}::{}!({:#b})", kind, opname, requested);
             let expect_ok = requested & !mask == 0;
+            if let (0, Ret::Multi(v)) = (op, &ra) {
+                let n = match v.get(1) { Some(Ret::U(n)) => *n, _ => 0 };
+                return Err(Violation::new("cast.operand_evaluations", &what, format!("{}: the object expression handed to the macro was evaluated {} times (once expected: the answer is about the one object it yields)", what, n)));
+            }
             let got_ok = match &ra { Ret::B(x) => *x, Ret::Some_(_) => true, _ => false };
             // C08: success iff every requested trait was enabled
             vcheck!(got_ok == expect_ok, "cast.outcome", &what, "{} on a group whose implementor enables {:#b}: {} (expected {})", what, mask, if got_ok { "succeeded" } else { "failed" }, if expect_ok { "success" } else { "failure" });
